@@ -607,7 +607,8 @@ func (s *loop) checkCompletion(op *lOp) {
 				c.Failf("bytes-consumed-but-not-reported/"+name, "op %d failed (%v) reporting n=%d although %d bytes of the stream were moved into the caller's buffer: the other %d are lost to the application", op.id, op.err, op.n, moved, moved-int64(op.n))
 			}
 		}
-		if op.err != nil && !o.peerFin && !o.peerClosed && !o.peerRst && !o.fdGone {
+		byCancel := op.cancelled && errors.Is(op.err, sonicerrors.ErrCancelled)
+		if op.err != nil && !byCancel && !o.peerFin && !o.peerClosed && !o.peerRst && !o.fdGone {
 			c.Failf("error-on-healthy-stream/"+name, "op %d failed with %v (n=%d) although the peer neither closed nor reset the connection and the kernel reported no error", op.id, op.err, op.n)
 		}
 		if op.err == nil {
@@ -624,8 +625,8 @@ func (s *loop) checkCompletion(op *lOp) {
 			}
 		}
 		o.inOff += int64(op.n)
-		if op.err != nil {
-			o.inBroken = true
+		if op.err != nil && !byCancel {
+			o.inBroken = true // a cancelled read leaves the stream usable: the application resumes from the reported count
 		}
 	case opWrite, opWriteAll:
 		if op.n < 0 || op.n > len(op.buf) {
@@ -634,7 +635,8 @@ func (s *loop) checkCompletion(op *lOp) {
 		if o.outBroken {
 			return
 		}
-		if op.err != nil && !o.peerFin && !o.peerClosed && !o.peerRst && !o.fdGone {
+		byCancel := op.cancelled && errors.Is(op.err, sonicerrors.ErrCancelled)
+		if op.err != nil && !byCancel && !o.peerFin && !o.peerClosed && !o.peerRst && !o.fdGone {
 			c.Failf("error-on-healthy-stream/"+name, "op %d failed with %v (n=%d) although the peer neither closed nor reset the connection and the kernel reported no error", op.id, op.err, op.n)
 		}
 		if o.myEnd != nil {
@@ -645,9 +647,13 @@ func (s *loop) checkCompletion(op *lOp) {
 			if op.err != nil && int64(op.n) > moved {
 				c.Failf("count-exceeds-transferred/"+name, "op %d failed (%v) reporting n=%d, the kernel accepted only %d bytes", op.id, op.err, op.n, moved)
 			}
+			if byCancel && int64(op.n) < moved {
+				// the application resumes from the reported count: what was written and not reported is written again
+				c.Failf("bytes-written-but-not-reported/"+name, "op %d was cancelled reporting n=%d although the kernel accepted %d bytes from the caller's buffer: resuming from the reported count sends the other %d twice", op.id, op.n, moved, moved-int64(op.n))
+			}
 			// keep the generator aligned with what really entered the stream
 			o.outOff += moved
-			if op.err != nil {
+			if op.err != nil && !byCancel {
 				o.outBroken = true
 			}
 			if op.err == nil && op.kind == opWriteAll && op.n != len(op.buf) {
@@ -659,7 +665,7 @@ func (s *loop) checkCompletion(op *lOp) {
 			c.Failf("writeall-short-success/"+o.kind.String(), "AsyncWriteAll(op %d) reported success with n=%d of %d", op.id, op.n, len(op.buf))
 		}
 		o.outOff += int64(op.n)
-		if op.err != nil {
+		if op.err != nil && !byCancel {
 			o.outBroken = true
 		}
 	default:
@@ -682,6 +688,9 @@ func (s *loop) doCancel(o *lObj) {
 		}
 	}
 	w.Tracef("cancel obj=%d covering %d ops", o.ix, len(covered))
+	for _, op := range covered {
+		op.cancelled = true
+	}
 	o.fd.Cancel()
 	for _, op := range covered {
 		if op.exempt || o.closed {
